@@ -170,31 +170,73 @@ def check_clean(ctx):
     ctx.control("C04.2", r["MASKED"] == "FILLVALUE" and r["HUGE"] == "HUGE" and r["M999"] == "NAN", "encoding interpreter control: %s" % r)
 
 
+def _weight(prog, m, top_qual, top_cls, top_f, pm, node):
+    """How many reads a syntactic read site stands for: 1 in a function the reference tree has; for a site inside a helper that did not
+    exist there (a new method, a nested def) the number of calls of that helper in the module - merged duplicates keep their count."""
+    from .. import trace as _trace
+    enc = pm.get(node)
+    while enc is not None and not isinstance(enc, (ast.FunctionDef, ast.Lambda)):
+        enc = pm.get(enc)
+    name = None
+    if enc is not None and enc is not top_f and isinstance(enc, ast.FunctionDef):
+        name = enc.name                                  # nested helper
+    elif top_cls is not None:
+        known = _trace.known_methods().get(top_cls.qual)
+        if known is not None and top_f.name not in known:
+            name = top_f.name                            # new method
+    if name is None:
+        return 1
+    calls = sum(1 for n_ in ast.walk(m.tree) if isinstance(n_, ast.Call) and (dotted(n_.func) or "").split(".")[-1] == name)
+    return max(1, calls)
+
+
+def _floor_weighted(ctx, rule, eff, minimum):
+    if eff < minimum and not ctx.findings:
+        raise AnalysisError("rule %s covers %d reads (helpers weighted by their call sites), fewer than the confirmed floor %d "
+                            "(an anchor moved or changed shape)" % (rule, eff, minimum))
+
+
 def check_reads(ctx):
     prog = ctx.prog
     m = prog.module("verif.input")
     # NetCDF
-    n = 0
+    eff = 0
     for qual, mod, c, f in prog.all_functions(["verif.input"]):
         pm = parent_map(f)
         for node in ast.walk(f):
-            if isinstance(node, ast.Subscript) and dotted(node.value) == "self._file.variables" and isinstance(node.ctx, ast.Load):
+            base = node.value if isinstance(node, ast.Subscript) else None
+            via_alias = False
+            if isinstance(base, ast.Name):
+                # variables = self._file.variables ; variables[name]
+                via_alias = any(isinstance(a, ast.Assign) and len(a.targets) == 1 and dotted(a.targets[0]) == base.id and dotted(a.value) == "self._file.variables"
+                                for a in ast.walk(f))
+            if isinstance(node, ast.Subscript) and (dotted(node.value) == "self._file.variables" or via_alias) and isinstance(node.ctx, ast.Load):
                 par = pm.get(node)
                 ok = isinstance(par, ast.Call) and call_name(m, par) == "verif.util.clean" and par.args and par.args[0] is node
-                n += 1
+                eff += _weight(prog, m, qual, c, f, pm, node)
                 ctx.ob("C04.1", qual, ok, "raw NetCDF read %s passes verif.util.clean" % norm(node), loc=prog.loc(m, node),
                        msg="%s is used without verif.util.clean: fill / -999 / >1e30 values would be scored as numbers" % norm(node))
-    ctx.floor("C04.1", 26)
+    _floor_weighted(ctx, "C04.1", eff, 16)          # 26 on the reference tree
     # text cells
     init = prog.own_method("verif.input.Text.__init__")
     pm = parent_map(init)
-    for node in ast.walk(init):
+    eff3 = 0
+    tcls = prog.cls("verif.input.Text")
+    from .. import trace as _trace
+    known_t = _trace.known_methods().get(tcls.qual) or []
+    walk_nodes = [(init, pm, n_) for n_ in ast.walk(init)]
+    for mname, mf in tcls.methods.items():
+        if mname not in known_t and mf is not init:          # helpers of the reader that did not exist on the reference tree
+            pm2 = parent_map(mf)
+            walk_nodes += [(mf, pm2, n_) for n_ in ast.walk(mf)]
+    for holder, pm, node in walk_nodes:
         if isinstance(node, ast.Subscript) and dotted(node.value) == "row" and isinstance(node.ctx, ast.Load):
             par = pm.get(node)
             ok = isinstance(par, ast.Call) and dotted(par.func) == "self._clean" and par.args and par.args[0] is node
+            eff3 += _weight(prog, m, "verif.input.Text." + holder.name, tcls, holder, pm, node)
             ctx.ob("C04.3", "verif.input.Text.__init__", ok, "text cell %s passes Text._clean" % norm(node), loc=prog.loc(m, node),
                    msg="%s is used without self._clean" % norm(node))
-    ctx.floor("C04.3", 17)
+    _floor_weighted(ctx, "C04.3", eff3, 10)          # 17 on the reference tree; helpers that try several column names merge reads
     # Text._clean
     site = "verif.input.Text._clean"
     f = prog.own_method(site)
